@@ -14,7 +14,7 @@ import PallasVerif.Model.Cbor
     minimal heads minicbor emits, byte strings longer than 64 bytes chunked (`chunks 64`).
   * `ofItem` / `decode`: the `Decode` impls read off the concrete syntax tree returned by the strict
     L1 parser (`Cbor.parseItem`) — a specification-level decoder. The byte-level transcription of the
-    Rust decoder (minicbor primitives, tag-102 leniency included) is `Model/PlutusDataDec.lean`;
+    Rust decoder (over the minicbor primitives it calls) is `Model/PlutusDataDec.lean`;
     `Proofs/PlutusDataDec.lean` proves that it returns what `ofItem` returns on every well-formed
     tree `ofItem` accepts. Trailing bytes after the first item are ignored (`minicbor::decode`).
 -/
@@ -312,6 +312,13 @@ def ofItem : Item → Option PData
       match i with
       | .seq h' [a, f] =>
         if h'.major = 4 then
+          match a.uint?, f with
+          | some n, .seq h'' xs => if h''.major = 4 then (ofItems xs).map (.constr 102 (some n) true) else none
+          | some n, .seqIndef m xs => if m = 4 then (ofItems xs).map (.constr 102 (some n) false) else none
+          | _, _ => none
+        else none
+      | .seqIndef m' [a, f] =>
+        if m' = 4 then
           match a.uint?, f with
           | some n, .seq h'' xs => if h''.major = 4 then (ofItems xs).map (.constr 102 (some n) true) else none
           | some n, .seqIndef m xs => if m = 4 then (ofItems xs).map (.constr 102 (some n) false) else none
